@@ -231,6 +231,53 @@ impl Val {
     }
 }
 
+impl Val {
+    /// third construction route: the statically typed wrappers (TypedArray / TypedMap), for the shapes over Int
+    /// that they can express at depth <= 2; None for other shapes or values that are not well typed
+    pub fn to_engine_typed(&self) -> Option<wirefilter::LhsValue<'static>> {
+        use wirefilter::{Array, LhsValue as L, Map, TypedArray, TypedMap};
+        fn ints(v: &[Val]) -> Option<Vec<i64>> {
+            v.iter().map(|x| match x { Val::Int { v } => Some(unlimbs(v)), _ => None }).collect()
+        }
+        fn int_map(v: &[KV]) -> Option<Vec<(Box<[u8]>, i64)>> {
+            v.iter().map(|kv| match &kv.v { Val::Int { v } => Some((kv.k.clone().into_boxed_slice(), unlimbs(v))), _ => None }).collect()
+        }
+        match self {
+            Val::Arr { e: Ty::Int, v } => Some(L::Array(Array::from(TypedArray::<i64>::from_iter(ints(v)?)))),
+            Val::Map { e: Ty::Int, v } => Some(L::Map(Map::from(TypedMap::<i64>::from_iter(int_map(v)?)))),
+            Val::Arr { e: Ty::Array { e: inner }, v } if **inner == Ty::Int => {
+                let rows: Option<Vec<TypedArray<i64>>> = v.iter().map(|x| match x {
+                    Val::Arr { e: Ty::Int, v } => ints(v).map(TypedArray::<i64>::from_iter),
+                    _ => None,
+                }).collect();
+                Some(L::Array(Array::from(TypedArray::from_iter(rows?))))
+            }
+            Val::Arr { e: Ty::Map { e: inner }, v } if **inner == Ty::Int => {
+                let rows: Option<Vec<TypedMap<i64>>> = v.iter().map(|x| match x {
+                    Val::Map { e: Ty::Int, v } => int_map(v).map(TypedMap::<i64>::from_iter),
+                    _ => None,
+                }).collect();
+                Some(L::Array(Array::from(TypedArray::from_iter(rows?))))
+            }
+            Val::Map { e: Ty::Array { e: inner }, v } if **inner == Ty::Int => {
+                let rows: Option<Vec<(Box<[u8]>, TypedArray<i64>)>> = v.iter().map(|kv| match &kv.v {
+                    Val::Arr { e: Ty::Int, v } => ints(v).map(|i| (kv.k.clone().into_boxed_slice(), TypedArray::<i64>::from_iter(i))),
+                    _ => None,
+                }).collect();
+                Some(L::Map(Map::from(TypedMap::from_iter(rows?))))
+            }
+            Val::Map { e: Ty::Map { e: inner }, v } if **inner == Ty::Int => {
+                let rows: Option<Vec<(Box<[u8]>, TypedMap<i64>)>> = v.iter().map(|kv| match &kv.v {
+                    Val::Map { e: Ty::Int, v } => int_map(v).map(|m| (kv.k.clone().into_boxed_slice(), TypedMap::<i64>::from_iter(m))),
+                    _ => None,
+                }).collect();
+                Some(L::Map(Map::from(TypedMap::from_iter(rows?))))
+            }
+            _ => None,
+        }
+    }
+}
+
 #[derive(Clone, Debug, PartialEq, Serialize, Deserialize)]
 pub struct FieldSpec {
     pub name: String,
